@@ -65,8 +65,8 @@ CONFIGS = {
     "karat2": _cfg(OPTS=dict(BN_KARAT=2, FP_KARAT=2, FB_KARAT=2)),
     "magni-carry": _cfg(OPTS=dict(BN_MAGNI="CARRY")),
     "magni-single": _cfg(OPTS=dict(BN_MAGNI="SINGLE")),
-    "fp-quick": _cfg(OPTS=dict(FP_PMERS="on", FP_METHD="INTEG;INTEG;INTEG;QUICK;MONTY;JMPDS;SLIDE")),
-    "fp-basic": _cfg(OPTS=dict(FP_METHD="BASIC;COMBA;COMBA;BASIC;MONTY;JMPDS;SLIDE")),
+    "fp-quick": _cfg(OPTS=dict(FP_PMERS="on", FP_METHD="INTEG;INTEG;INTEG;QUICK;JMPDS;JMPDS;SLIDE")),
+    "fp-basic": _cfg(OPTS=dict(FP_METHD="BASIC;COMBA;COMBA;BASIC;JMPDS;JMPDS;SLIDE")),
     "ep-jacob": _cfg(OPTS=dict(EP_METHD="JACOB;LWNAF;COMBS;INTER;SSWUM")),
     "ep-basic": _cfg(OPTS=dict(EP_METHD="BASIC;LWNAF;COMBS;INTER;SSWUM", EB_METHD="BASIC;LWNAF;COMBS;INTER",
                                ED_METHD="BASIC;LWNAF;COMBS;INTER")),
@@ -168,7 +168,8 @@ def ensure(cfg, runner=True, fuzz_targets=()):
             return d
         exe = os.path.join(d, "vs_runner")
         srcs = runner_sources()
-        hdrs = glob.glob(os.path.join(VERIF, "engine", "shim", "*.h"))
+        hdrs = glob.glob(os.path.join(VERIF, "engine", "shim", "*.h")) + \
+            glob.glob(os.path.join(REPO, "include", "*.h")) + glob.glob(os.path.join(REPO, "include", "low", "*.h"))
         newest = max(os.path.getmtime(p) for p in srcs + hdrs + libs)
         incs = ["-I" + os.path.join(d, "include"), "-I" + os.path.join(REPO, "include"),
                 "-I" + os.path.join(REPO, "include", "low"), "-I" + os.path.join(REPO, "src", "tmpl"),
